@@ -268,7 +268,8 @@ def gen_scenario(rng):
         depth = rng.range(4, 6)         # decorators stack to any height (Catch/Tower.lean)
     sc = {"kind": kind, "cfgs": [gen_cfg(rng, True) for _ in range(depth)], "env": gen_env(rng),
           "table": gen_table(rng, kind), "ops": gen_ops(rng, kind)}
-    if depth == 1 and rng.chance(3):
+    if depth == 1 and rng.chance(3) and bits_of(sc["cfgs"][0]["exc"])[0] == "0":
+        # (not for configurations that match GeneratorExit: there close() itself reaches `_log`, finding F17)
         sc["cfgs"][0]["msgbad"] = rng.choice(sorted(MSG_BAD))
     return sc
 
